@@ -63,6 +63,11 @@ impl Number<'_> {
     #[allow(clippy::let_unit_value)] // reason = "intentional ASM drop for X87 FPUs"
     pub fn try_fast_path<F: RawFloat, const FORMAT: u128>(&self) -> Option<F> {
         let format = NumberFormat::<FORMAT> {};
+        // The exponent is in units of the exponent base: scaling by a power of the
+        // mantissa radix is only valid when both are the same.
+        if format.mantissa_radix() != format.exponent_base() {
+            return None;
+        }
         debug_assert!(
             format.mantissa_radix() == format.exponent_base(),
             "fast path requires same radix"
